@@ -40,6 +40,8 @@ type Prog struct {
 		Packages, ModPackages, Functions, Blocks, Instrs, CallSites int
 	}
 	fa map[*ssa.Function]*FuncAnalysis
+	// AlwaysCut: literals that are infeasible under the global assumptions (dev-mode fold)
+	AlwaysCut []LitPat
 }
 
 // BrokenError aborts the run with exit 2 (no verdict).
